@@ -100,6 +100,10 @@ func onceBody(c *Checker, rule string, fn *ssa.Function) *ssa.Function {
 }
 
 func runC12(c *Checker) {
+	// "always returns within a bounded time ... under all interleavings with the connection's internal
+	// goroutines" presupposes that those goroutines cannot deadlock each other or Close: the
+	// obligations of C18 (lock order, close-site idioms, races) are part of this check
+	importLayers(c, "C18")
 	w := c.w
 	gclose := w.Func("(*gbn.GoBackNConn).Close")
 	conn := w.Named("gbn.GoBackNConn")
